@@ -23,7 +23,7 @@ def run(tier):
     # 1. the escape table and the literal syntax are inverse; integer shapes (tla/Render.tla)
     r = tlc.run_tlc("MCRender", constants={"Fixed": True, "MaxLen": 3, "Alphabet": ALPHABET, "NoSaver": []}, workers=1, timeout=900)
     if not r.ok:
-        if "ssumption" in r.out:
+        if "ssumption" in r.out and "is false" in r.out:
             vd.observe("model:render", {"output": r.out[-3000:]})
         else:
             raise common.ToolError("MCRender failed\n" + r.out[-2000:])
